@@ -198,7 +198,7 @@ func (f *facts) String() string {
 }
 
 func hasPrefixPath(k, p string) bool {
-	return k == p || strings.HasPrefix(k, p+".") || strings.HasPrefix(k, p+"[") || strings.Contains(k, "("+p+")") || strings.Contains(k, "("+p+".")
+	return k == p || strings.HasPrefix(k, p+"+") || strings.HasPrefix(k, p+".") || strings.HasPrefix(k, p+"[") || strings.Contains(k, "("+p+")") || strings.Contains(k, "("+p+".")
 }
 
 // kill removes every fact that mentions path p or something below it.
@@ -588,15 +588,31 @@ func (pe pathEnv) refineCmp(x ast.Expr, op token.Token, y ast.Expr, f *facts) {
 		}
 		return
 	}
-	// i < len(P)
+	// i < len(P), also i+k < len(P) (kept under the key "i+k")
 	if p, ok := pe.lenArg(y, f); ok && op == token.LSS {
-		if ip, ok := pe.pathOf(x); ok {
+		if ip, ok := pe.idxKey(x); ok {
 			f.inRange[ip] = p
 		}
 	}
 	if p, ok := pe.lenArg(x, f); ok && op == token.GTR {
-		if ip, ok := pe.pathOf(y); ok {
+		if ip, ok := pe.idxKey(y); ok {
 			f.inRange[ip] = p
 		}
 	}
+}
+
+// idxKey names an index expression for range facts: a variable's path, or
+// "path+k" for variable + small constant.
+func (pe pathEnv) idxKey(e ast.Expr) (string, bool) {
+	if p, ok := pe.pathOf(e); ok {
+		return p, true
+	}
+	if be, ok := ast.Unparen(e).(*ast.BinaryExpr); ok && be.Op == token.ADD {
+		if k, isC := pe.constInt(be.Y); isC && k >= 1 && k <= 4 {
+			if p, ok := pe.pathOf(be.X); ok {
+				return fmt.Sprintf("%s+%d", p, k), true
+			}
+		}
+	}
+	return "", false
 }
